@@ -70,7 +70,7 @@ Check == idx > 0 =>
       case == [p |-> Prop, kind |-> "search", doc |-> doc,
                multi |-> { [expr |-> Render(ex[i].e), adm |-> {ex[i].v}] : i \in 1..Len(ex) }]
   IN /\ Emit => PrintT("CASE " \o ToJson(case))
-     /\ Named(bucket # 1 \/ \A m \in {7, 10, 19, 27, 40} : \A pp \in 1..Len(Pats) : \A ss \in BOOLEAN :
+     /\ Named(bucket # 1 \/ \A m \in {7, 19, 31} : \A pp \in 1..Len(Pats) : \A ss \in BOOLEAN :
                  LET e2 == Expect(Pats[pp], ss, m) IN
                  \A i \in 1..Len(e2) : Admissible(e2[i].e, DocOf(Pats[pp], ss, m)) = {e2[i].v}, "ClosedFormIsTheStableSort")
      /\ Named(Len(Order(pat, n)) = n, "OrderIsComplete")
